@@ -130,6 +130,11 @@ func runERC20Reddem(ctx *action.Context, tx action.RawTx) (bool, action.Response
 	if err != nil {
 		return helpers.LogAndReturnFalse(ctx.Logger, gov.ErrGetEthOptions, erc20redeem.Tags(), err)
 	}
+	// same rule as the ETH redeem: exactly one RLP-encoded Ethereum transaction, nothing around it
+	if _, err = ethereum.DecodeTransaction(erc20redeem.ETHTxn); err != nil {
+		ctx.Logger.Error(err)
+		return false, action.Response{Log: action.ErrInvalidExtTx.Error()}
+	}
 	redeemParams, err := ethereum.ParseERC20RedeemParams(erc20redeem.ETHTxn, ethOptions.ERCContractABI)
 	if err != nil {
 		ctx.Logger.Error(err)
